@@ -1,4 +1,8 @@
 import AcraModel.Wire.LenEnc
+import AcraModel.Wire.PgRow
+import AcraModel.Wire.MysqlRow
+import AcraModel.Wire.Bytea
+import AcraModel.Wire.PgBind
 /-! Driver ops for C12 (wire formats). -/
 namespace Driver.C12
 open AcraModel AcraModel.Wire
@@ -6,6 +10,77 @@ open AcraModel AcraModel.Wire
 def optBytes : Option Bytes → String
   | none => "null"
   | some b => hexOf b
+
+/-! ### shared token syntax
+* byte strings: hex, `-` = empty
+* lists: items joined by `,`; the empty list is `_`
+* rows: items are `n` (NULL) or a byte string
+* per-column transformation: `k` keep, `e` empty, `p:<hex>` prepend, `a:<hex>` append, `t:<n>` truncate to n bytes,
+  `r:<hex>` replace, `x` fail; columns beyond the list are kept -/
+
+def splitList (s : String) : List String := if s = "_" then [] else s.splitOn ","
+
+def parseNats (s : String) : Option (List Nat) := (splitList s).mapM (·.toNat?)
+
+def parseRow (s : String) : Option (List (Option Bytes)) :=
+  (splitList s).mapM fun t => if t = "n" then some none else (ofHex t).map some
+
+def showRow (r : List (Option Bytes)) : String :=
+  if r.isEmpty then "_" else ",".intercalate (r.map fun | none => "n" | some b => hexOf b)
+
+inductive Tr where
+  | keep | empty | fail
+  | prepend (b : Bytes) | append (b : Bytes) | trunc (n : Nat) | replace (b : Bytes)
+
+def parseTr (t : String) : Option Tr :=
+  match t.splitOn ":" with
+  | ["k"] => some .keep
+  | ["e"] => some .empty
+  | ["x"] => some .fail
+  | ["p", h] => (ofHex h).map .prepend
+  | ["a", h] => (ofHex h).map .append
+  | ["r", h] => (ofHex h).map .replace
+  | ["t", n] => n.toNat?.map .trunc
+  | _ => none
+
+def parseTrs (s : String) : Option (List Tr) := (splitList s).mapM parseTr
+
+def Tr.apply : Tr → Bytes → Out Bytes
+  | .keep, d => .ok d
+  | .empty, _ => .ok []
+  | .fail, _ => .err
+  | .prepend b, d => .ok (b ++ d)
+  | .append b, d => .ok (d ++ b)
+  | .trunc n, d => .ok (d.take n)
+  | .replace b, _ => .ok b
+
+def applyTrs (ts : List Tr) (i : Nat) (d : Bytes) : Out Bytes :=
+  match ts[i]? with
+  | some t => t.apply d
+  | none => .ok d
+
+/-- cheap checksum so that multi-megabyte results need not be printed -/
+def ck (b : Bytes) : Nat := b.foldl (fun a x => (a * 31 + x.toNat) % 4294967296) 7
+
+def showBig (b : Bytes) : String := s!"{b.length} {ck b} {hexOf (b.take 16)}"
+
+/-- MySQL: what the harness subscriber returns for column `i`: the transformed value in its wire form
+(length-encoded for string-like types, as it is for fixed-width types) -/
+def myG (trs : List Tr) (types : List Nat) (i : Nat) (v : Bytes) : Out Bytes := do
+  let v' ← applyTrs trs i v
+  match types[i]? with
+  | some t => pure (My.encodeBinVal t v')
+  | none => pure (LenEnc.putLengthEncodedString (some v'))
+
+def showPacket (p : Pg.Packet) (rest : Bytes) : String :=
+  s!"{p.typ.toNat} {hexOf p.lenBuf} {hexOf p.body} {rest.length} {hexOf (Pg.marshal p)}"
+
+def pgRead (mode : String) (s : Bytes) : Option (Out (Pg.Packet × Bytes)) :=
+  match mode with
+  | "general" => some (Pg.readClient true s)
+  | "startup" => some (Pg.readClient false s)
+  | "db" => some (Pg.readDb s)
+  | _ => none
 
 def handle (op : String) (args : List String) : Option String :=
   match op, args with
@@ -24,6 +99,155 @@ def handle (op : String) (args : List String) : Option String :=
   | "lenenc.putstr", [v] => do
       if v = "null" then pure (hexOf (LenEnc.putLengthEncodedString none))
       else do let b ← ofHex v; pure (hexOf (LenEnc.putLengthEncodedString (some b)))
+  -- PostgreSQL framing: read one packet from a stream, show its parts and its marshalled form
+  | "pg.read", [mode, s] => do
+      let s ← ofHex s
+      let r ← pgRead mode s
+      pure (r.render fun (p, rest) => showPacket p rest)
+  -- PostgreSQL DataRow: read a database packet, run the column loop with a transformation, marshal
+  | "pg.row", [fmts, trs, s] => do
+      let fmts ← parseNats fmts
+      let trs ← parseTrs trs
+      let s ← ofHex s
+      let r : Out Bytes := do
+        let (p, _) ← Pg.readDb s
+        let p' ← Pg.rewriteRow (applyTrs trs) fmts p
+        pure (Pg.marshal p')
+      pure (r.render hexOf)
+  | "pg.row.enc", [row] => do
+      let row ← parseRow row
+      pure (hexOf (Pg.encodeRow row))
+  | "pg.row.dec", [b] => do
+      let b ← ofHex b
+      pure (match Pg.decodeRow b with | some r => "some " ++ showRow r | none => "none")
+  | "pg.msg.dec", [b] => do
+      let b ← ofHex b
+      pure (match Pg.decodeMsg b with
+        | some (t, body, rest) => s!"some {t.toNat} {hexOf body} {rest.length}"
+        | none => "none")
+  | "pg.query.replace", [s, q] => do
+      let s ← ofHex s
+      let q ← ofHex q
+      let r : Out Bytes := do
+        let (p, _) ← Pg.readClient true s
+        pure (Pg.marshal (Pg.replaceSimpleQuery p q))
+      pure (r.render hexOf)
+  -- MySQL framing
+  | "my.read", [s] => do
+      let s ← ofHex s
+      pure ((My.read s).render fun (p, rest) => s!"{hexOf p.header} {showBig p.data} {rest.length} {showBig (My.dump p)}")
+  | "my.setdata", [h, d] => do
+      let h ← ofHex h
+      let d ← ofHex d
+      let p := My.setData ⟨h, []⟩ d
+      pure s!"ok {hexOf p.header} {showBig (My.dump p)}"
+  | "my.setdata.len", [h, n] => do
+      let h ← ofHex h
+      let n ← n.toNat?
+      pure ("ok " ++ hexOf (My.updatePacketSize h n))
+  | "my.replacequery", [h, d, q] => do
+      let h ← ofHex h
+      let d ← ofHex d
+      let q ← ofHex q
+      pure ((My.replaceQuery ⟨h, d⟩ q).render fun p => hexOf (My.dump p))
+  | "my.payload.enc", [seq, n, seed] => do
+      -- specification encoding of a payload given by length and a seed byte (payload[i] = (i*7+seed) % 256)
+      let seq ← seq.toNat?
+      let n ← n.toNat?
+      let seed ← seed.toNat?
+      let payload := (List.range n).map fun i => UInt8.ofNat ((i * 7 + seed) % 256)
+      pure ("ok " ++ showBig (My.encodePayload seq payload))
+  | "my.relaygen", [seq, n, seed] => do
+      -- relay of a protocol-encoded payload given by rule: read it, dump it, compare with what was sent
+      let seq ← seq.toNat?
+      let n ← n.toNat?
+      let seed ← seed.toNat?
+      let payload := (List.range n).map fun i => UInt8.ofNat ((i * 7 + seed) % 256)
+      let sent := My.encodePayload seq payload
+      pure ((My.read sent).render fun (p, rest) =>
+        s!"{hexOf p.header} {p.data.length} {rest.length} {(My.dump p).length} {My.dump p == sent}")
+  | "my.textrow", [n, trs, row] => do
+      let n ← n.toNat?
+      let trs ← parseTrs trs
+      let row ← ofHex row
+      pure ((My.textRow (myG trs []) n row).render hexOf)
+  | "my.binrow", [types, trs, row] => do
+      let types ← parseNats types
+      let trs ← parseTrs trs
+      let row ← ofHex row
+      pure ((My.binRow (myG trs types) types row).render hexOf)
+  | "my.textrow.enc", [row] => do
+      let row ← parseRow row
+      pure (hexOf (My.encodeTextRow row))
+  | "my.textrow.dec", [n, b] => do
+      let n ← n.toNat?
+      let b ← ofHex b
+      pure (match My.decodeTextRow n b with | some r => "some " ++ showRow r | none => "none")
+  | "my.binrow.enc", [types, row] => do
+      let types ← parseNats types
+      let row ← parseRow row
+      pure (hexOf (My.encodeBinRow types row))
+  | "my.binrow.dec", [types, b] => do
+      let types ← parseNats types
+      let b ← ofHex b
+      pure (match My.decodeBinRow types b with | some r => "some " ++ showRow r | none => "none")
+  -- PostgreSQL Parse
+  | "pg.parse.fields", [b] => do
+      let b ← ofHex b
+      pure ((Pg.newParsePacket b).render fun p =>
+        s!"{hexOf p.name} {hexOf p.query} {hexOf p.paramsNum} {if p.params.isEmpty then "_" else ",".intercalate (p.params.map hexOf)} {hexOf p.marshal} {p.length}")
+  | "pg.parse.replace", [s, q] => do
+      let s ← ofHex s
+      let q ← ofHex q
+      let r : Out Bytes := do
+        let (p, _) ← Pg.readClient true s
+        let p' ← Pg.replaceParseQuery p q
+        pure (Pg.marshal p')
+      pure (r.render hexOf)
+  | "pg.parse.enc", [name, query, oids] => do
+      let name ← ofHex name
+      let query ← ofHex query
+      let oids ← parseNats oids
+      pure (hexOf (Pg.encodeParse name query oids))
+  | "pg.parse.dec", [b] => do
+      let b ← ofHex b
+      pure (match Pg.decodeParse b with
+        | some (n, q, oids) => s!"some {hexOf n} {hexOf q} {if oids.isEmpty then "_" else ",".intercalate (oids.map toString)}"
+        | none => "none")
+  -- PostgreSQL Bind
+  | "pg.bind.fields", [b] => do
+      let b ← ofHex b
+      let showNats (xs : List Nat) : String := if xs.isEmpty then "_" else ",".intercalate (xs.map toString)
+      pure ((Pg.newBindPacket b).render fun p =>
+        s!"{hexOf p.portal} {hexOf p.statement} {showNats p.paramFormats} {showRow p.paramValues} {showNats p.resultFormats}")
+  | "pg.bind", [trs, s] => do
+      let trs ← parseTrs trs
+      let s ← ofHex s
+      let g : Nat → Bool → Option Bytes → Out (Option Bytes) := fun i _ v =>
+        match v with
+        | none => .ok none
+        | some d => (applyTrs trs i d).bind fun d' => .ok (some d')
+      let r : Out Bytes := do
+        let (p, _) ← Pg.readClient true s
+        let p' ← Pg.rewriteBind g p
+        pure (Pg.marshal p')
+      pure (r.render hexOf)
+  | "pg.bind.enc", [portal, stmt, pf, pv, rf] => do
+      let portal ← ofHex portal
+      let stmt ← ofHex stmt
+      let pf ← parseNats pf
+      let pv ← parseRow pv
+      let rf ← parseNats rf
+      pure (hexOf (Pg.encodeBind portal stmt pf pv rf))
+  -- bytea text codecs
+  | "bytea.octal.enc", [b] => do let b ← ofHex b; pure ("ok " ++ hexOf (Bytea.encodeToOctal b))
+  | "bytea.octal.dec", [b] => do
+      let b ← ofHex b
+      pure (match Bytea.decodeOctal b with | some r => "ok " ++ hexOf r | none => "err")
+  | "bytea.hex.enc", [b] => do let b ← ofHex b; pure ("ok " ++ hexOf (Bytea.pgEncodeToHex b))
+  | "bytea.escaped.dec", [b] => do
+      let b ← ofHex b
+      pure (match Bytea.decodeEscaped b with | .ok r => "ok " ++ hexOf r | .error .hex => "err-hex" | .error .octal => "err-octal")
   | _, _ => none
 
 end Driver.C12
